@@ -474,16 +474,20 @@ class TracksBuilder(ABC):
         node_ids = self.in_memory_geff["node_ids"]
         seg_ids = node_props["seg_id"]["values"]
 
-        # Check if any seg_id differs from node_id
+        # Check if any seg_id differs from node_id, or if a frame holds a label that
+        # is not a node of that time point (it must be removed by relabeling)
         computed = seg_array.compute()
-        if np.array_equal(seg_ids, node_ids) and np.isin(
-            computed[computed != 0], node_ids
-        ).all():
+        time_values = np.asarray(node_props[NodeAttr.TIME.value]["values"])
+        if np.array_equal(seg_ids, node_ids) and all(
+            np.isin(
+                np.unique(computed[t]), np.append(np.asarray(node_ids)[time_values == t], 0)
+            ).all()
+            for t in range(computed.shape[0])
+        ):
             # No relabeling needed
             return computed, scale
 
         # Relabel segmentation: seg_id -> node_id
-        time_values = node_props[NodeAttr.TIME.value]["values"]
         new_segmentation = relabel_segmentation(
             seg_array, graph, node_ids, seg_ids, time_values
         )
